@@ -175,7 +175,8 @@ def check_props(prop_id):
     the property theorems against the compiled lemmas) and parse the Print Assumptions output."""
     t0 = time.time()
     info = {"file": "coq/props/%s.v" % prop_id, "theorems": [], "ok": False, "assumptions": {}, "log": ""}
-    r = subprocess.run(["bash", "-c", "cd %s && ./build.sh" % VERIF], capture_output=True, text=True)
+    # one build at a time: checks of different properties may be started concurrently and share coq/ and ocaml/
+    r = subprocess.run(["bash", "-c", "cd %s && flock -w 3000 .build.lock ./build.sh" % VERIF], capture_output=True, text=True)
     if r.returncode != 0:
         info["log"] = (r.stdout + r.stderr)[-3000:]
         info["wall_s"] = time.time() - t0
